@@ -201,7 +201,9 @@ fn draw_app(w: &mut World, i: usize) -> (App, Vec<u32>) {
     (app, version)
 }
 
-pub const URLS: [&str; 8] = [
+pub const URLS: [&str; 10] = [
+    "https://omaha.example.test/update?return=/done?ok",
+    "http://omaha.example.test:8080/u?a=b&flag&empty=&&z=1",
     "https://omaha.example.test/service/update/json",
     "http://omaha.example.test",
     "http://omaha.example.test/",
@@ -1260,6 +1262,13 @@ pub fn run_sm(profile: &Profile, cfg: &RunCfg) -> (RunOut, Shared, Option<Setup>
                 }
                 _ => break,
             }
+        }
+        if lock(&world).profile.server == crate::profile::ServerKind::Mock {
+            let (config, handler) = {
+                let w = lock(&world);
+                make_config(&setup, &w, &setup.os_version)
+            };
+            crate::mockserver::direct_mixed_exchange(&world, &setup.apps, &config, handler.as_ref());
         }
         // probe restarts: what would a machine rebuilt on each committed map present?
         if lock(&world).profile.probes {
